@@ -24,6 +24,9 @@ SEMANTIC = (
     'loop invariant not satisfied',
     'could not prove termination',
     'failed precondition',
+    # a function that was not recursive (the unchanged tree verifies without a measure) now calls itself: the termination obligation,
+    # trivially discharged before, fails
+    'recursive function must have a decreases clause',
 )
 
 
@@ -90,6 +93,8 @@ def classify(res):
         return 'undecided', errs or [dict(message='no json output: ' + res['stderr'][-2000:], lines=[], semantic=False)]
     vr = j.get('verification-results', {})
     if vr.get('encountered-vir-error'):
+        if errs and all(e['semantic'] and 'decreases clause' in e['message'].lower() for e in errs):
+            return 'fail', errs
         return 'undecided', errs
     if vr.get('success') and not errs:
         return 'ok', []
